@@ -103,6 +103,11 @@ CHECKS['C17'] = ('exploration', 'complete enumeration of (multiset of child fail
     'class identity under permutation/duplication, Concurrent[A,B] is Concurrent[B,A], and flattened() leaf order are checked; everything is repeated with the specialisation frozenset iterating forwards and backwards.',
     'The reference predicate is the specification. One open known finding: the except clause ignores __subclasscheck__ (CPython), in the direction rule-says-match/not-caught only.',
     'DESIGN.md section 3 C17')
+CHECKS['C15'] = ('model_checking', 'exhaustive enumeration of run histories on one thread, and stateless exploration of ALL interleavings (bounded preemptions) of real OS threads running simulations under a controlled scheduler',
+    '(a) every sequence of <= 3/4 runs over 10 kinds (ok, failing, leaking truthy/falsy values, blocked for ever, till, nested ok/failing/leaking) is executed and time.now must raise outside every run, exceptions must be re-raised by identity, leaks reported, roots started in order at start, runs end only at quiescence, outer simulations are undisturbed by nested ones; '
+    '(b) 2-3 real threads each run a simulation while a baton-passing scheduler owns every switch (points after every activation and around StateHandler.assign); all schedules within the preemption bound are enumerated (DFS over choice prefixes) and every thread must log exactly what it logs alone and see no simulation afterwards.',
+    'Switches only at the modelled points; no free-running race detection. states = complete schedules, transitions = scheduling decisions.',
+    'DESIGN.md section 3 C15')
 PENDING = {}
 
 def main():
